@@ -153,6 +153,9 @@ func c13Run(c *Ctx) {
 	}
 	style := gen.DrawXStyle(c.L("style"))
 	style.EqSpace = c.L("style:x").Chance(1, 4)
+	if y := c.L("style:y"); y.Chance(1, 4) {
+		style.AttrPad = []int{40, 130, 260, 600, 1300}[y.Intn(5)]
+	}
 	c.Descf("style: %+v", style)
 	pkt := rec.Serialise(g, style)
 	container := cfg.Intn(4) // 0,1: direct; 2: JPEG APP1; 3: CR3 xpacket
